@@ -435,7 +435,7 @@ void verif_run(verif::Args const& a, verif::Evidence& ev)
     ev.rule = "11 groups of mutually compatible pixel models (rgb8: rgb/bgr values + planar references of both layouts; rgba8: rgba/bgra/argb/abgr values + planar references incl. argb; rgb565: packed rgb/bgr + bit-aligned references rgb/bgr "
               "at a non-byte-aligned position; rgba8888 packed + bit-aligned rgba/argb; cmyk8; rgb16; rgb32f; rgba16s; devicen<2>, devicen<5>; gray8 value + bit-aligned 8-bit): every ordered pair x seeded channel values: "
               "get_color round trip, dst=src pairs by colour name, ==/!=, single-colour change breaks equality and nothing else, value construction, static_copy/equal/for_each(1,2)/transform(1,2) pair by colour and visit each "
-              "channel once; per model: semantic_at_c<K> == at_c<mapping[K]> (write through one, read through the other), operator[], raw memory order, static_min/max/generate. "
+              "channel once; with different values in the two sources, every const/non-const overload of binary static_transform (4), binary (4) and ternary (8) static_for_each and the const one-source forms is handed exactly the by-colour channel tuples (recorded by the operation, compared as sorted lists); per model: semantic_at_c<K> == at_c<mapping[K]> (write through one, read through the other), operator[], raw memory order, static_min/max/generate. "
               "non-trivial: the two models differ (layout or kind); distinct = (group, ordered pair, seeded values).";
     ev.exhaustive = false;
     std::vector<std::thread> thr;
